@@ -313,6 +313,13 @@ pub const VALUE_CONTEXTS: &[(&str, &[&str], &[&str])] = &[
     ("declaration-value", &[".", "a", "{", "k", ":"], &["}"]),
     ("custom-property", &[".", "a", "{", "--p", ":"], &["}"]),
     ("calc", &[".", "a", "{", "k", ":", "calc("], &[")", "}"]),
+    // (contexts whose name starts with "calc" keep the blanks around + and -: parentheses, functions and
+    //  another calc() nested in calc(), after a nested block, and the upper-case spelling)
+    ("calc-paren", &[".", "a", "{", "k", ":", "calc(", "("], &[")", "*", "2", ")", "}"]),
+    ("calc-function", &[".", "a", "{", "k", ":", "calc(", "min("], &[")", ")", "}"]),
+    ("calc-calc", &[".", "a", "{", "k", ":", "calc(", "1px", " ", "+", " ", "calc("], &[")", ")", "}"]),
+    ("calc-after-paren", &[".", "a", "{", "k", ":", "calc(", "(", "1px", ")"], &[")", "}"]),
+    ("calc-upper", &[".", "a", "{", "k", ":", "CALC("], &[")", "}"]),
     ("function-arg", &[".", "a", "{", "k", ":", "f("], &[")", "}"]),
     ("media-feature", &["@media", " ", "(", "min-width", ":"], &[")", "{", "}"]),
     ("keyframes", &["@keyframes", " ", "n", "{", "50%", "{", "k", ":"], &["}", "}"]),
@@ -343,14 +350,14 @@ pub fn value_sheet(c: usize, ks: &[usize], ws: &[bool]) -> Sheet {
     let mut sh = Sheet::new();
     for p in pre.iter() {
         if *p == " " {
-            sh.ws(false, "prefix");
+            sh.ws(name.starts_with("calc"), "prefix");
         } else if *p == "a" && pre[0] == "." {
             sh.push("a", Role::Class, "prefix");
         } else {
             sh.plain(p, "prefix");
         }
     }
-    let in_calc = name == "calc";
+    let in_calc = name.starts_with("calc");
     // <urange> only exists in the unicode-range descriptor of @font-face
     if name != "font-face" && ks.iter().any(|k| KINDS[*k].micro == Some(Micro::UnicodeRange)) {
         return Sheet::new();
